@@ -247,6 +247,11 @@ theorem sparse_sound (op : Op) (h : OpValid op) (n? : Option Nat) {k : Nat} {f :
     (hs : sparseOp op n? = .ok (k, f)) (m n : Nat) (hm : m < 2 ^ k) (hn : n < 2 ^ k) : f m n = amp op m n :=
   sparseOp_sound' op h n? hs m n hm hn
 
+/-- the fuel of the two fuel-driven model functions suffices: the bit count satisfies its defining
+    recursion for every argument and the decimal rendering parses back to the number -/
+theorem fuel_suffices (n : Nat) : popcount n = n % 2 + popcount (n / 2) ∧ parseDigits (digits n) = n :=
+  ⟨popcount_step n, parse_digits n⟩
+
 /-- when the export raises (the inputs the real code rejects) -/
 theorem sparse_rejections :
     (sparseOp [([], ⟨2, 0⟩)] none).toOption = none ∧            -- only a constant term: max() of empty
